@@ -135,6 +135,7 @@ def gen_estimator(rng, cls, ds, ample=True, frac=None):
 
 
 PDCD_FAMILIES = [e for e in G.CATALOG if e[0] == "PDCD_WS"]
+SVC_FAMILIES = [e for e in G.CATALOG if e[1] == "QuadraticSVC"]
 
 
 def gen_gle(rng, cls, families=None):
@@ -195,6 +196,9 @@ def plan_C11(seed, run, engine, tier="quick"):
     rng = G.rng_for(seed, "C11", run)
     cls = _pick_cls(rng, [c for c in EST_ENTRIES if c != "IterativeReweightedL1"])
     args, ds = _new_model(rng, cls, ample=rng.random() < 0.8)
+    if cls == "GeneralizedLinearEstimator" and rng.random() < 0.25:
+        # the SVC dual through the generic estimator, solved by AndersonCD or FISTA
+        args, ds = gen_gle(rng, cls, SVC_FAMILIES)
     ops = [dict(op="new", id="e0", cls=cls, args=args)]
     cont = choice(rng, ["F", "F", "C", "csc"])
     if cls in ("GroupLasso",) and cont == "csc" and rng.random() < 0.5:
@@ -309,16 +313,30 @@ def plan_C18(seed, run, engine, tier="quick"):
                         alphas=[float(a0 * f) for f in (3.0, 1.0, 0.3, 0.05, 0.005)]))
     if rng.random() < 0.5:
         # the same object fitted before, on other data or on the same
-        if rng.random() < 0.5 and cls0 not in ("GeneralizedLinearEstimator", "IterativeReweightedL1"):
+        if rng.random() < 0.5 and cls0 not in ("IterativeReweightedL1",) and \
+                (cls0 != "GeneralizedLinearEstimator" or ds0.get("kind") in ("reg", "bin", "multi")):
             kind = ds0["kind"]
             Xs = np.array(ds0["X"])
             T = np.array(ds0["y"]).shape[1] if kind == "multi" else None
-            alt = _dataset(rng, kind, p=Xs.shape[1], T=T)
+            # (often of the very same shape: state keyed by the shape of X only)
+            same_n = cls0 == "GeneralizedLinearEstimator" or rng.random() < 0.6
+            alt = _dataset(rng, kind, n=Xs.shape[0] if same_n else None, p=Xs.shape[1], T=T)
             datasets.append(alt)
             ops.append(dict(op="fit", id="e0", data=len(datasets) - 1, container=cont0, judge=False,
                             labels=labels))
         else:
             ops.append(dict(op="fit", id="e0", data=0, container=cont0, judge=False, labels=labels))
+    if rng.random() < 0.3:
+        # F-INTERRUPT: a fit of the judged object is killed part-way (at its k-th working-set
+        # selection / kernel call); the next fit must still equal the pristine-process fit
+        ops.append(dict(op="fit", id="e0", data=0 if rng.random() < 0.6 else len(datasets) - 1,
+                        container=cont0, judge=False, labels=labels,
+                        faults=dict(interrupt=int(choice(rng, [0, 1, 2, 3, 5, 8, 13, 30])))))
+        if ops[-1]["data"] != 0:
+            kd, k0 = datasets[ops[-1]["data"]]["kind"], ds0["kind"]
+            p_ok = len(datasets[ops[-1]["data"]]["X"][0]) == len(ds0["X"][0])
+            if kd != k0 or not p_ok:
+                ops[-1]["data"] = 0
     ops.append(dict(op="fit", id="e0", data=0, container=cont0, judge=False, labels=labels,
                     fresh_compare=True))
     return _mk("C18", seed, run, engine, datasets, ops, rng)
@@ -334,6 +352,20 @@ def plan_C10(seed, run, engine, tier="quick"):
         ds = _dataset(rng, "reg", n=int(rng.integers(10, 30)), p=int(rng.integers(8, 24)))
         args = gen_estimator(rng, cls, ds, True, frac=choice(rng, [0.03, 0.1, 0.2]))
         args["tol"] = float(min(args["tol"], 1e-6 * args["alpha"]))
+    if cls in ("Lasso", "ElasticNet", "WeightedLasso", "GroupLasso") and rng.random() < 0.15:
+        # a structured design whose columns sum *exactly* to zero (signed incidence / contrast
+        # coding: small integers, last row = minus the sum of the others): harmless for the dense
+        # norms, fatal for a sparse power method started from a fixed vector
+        n_, p_ = int(rng.integers(4, 16)), int(rng.integers(2, 10))
+        Xi = rng.integers(-4, 5, size=(n_, p_)).astype(float) * (rng.random((n_, p_)) < 0.8)
+        Xi[-1] = -Xi[:-1].sum(axis=0)
+        for j in range(p_):
+            if not np.any(Xi[:, j]):
+                Xi[0, j], Xi[-1, j] = 1.0, -1.0
+        Xi = Xi * 2.0 ** int(rng.integers(-2, 2))
+        ds = dict(X=Xi.tolist(), y=np.asarray(G.gen_target(rng, Xi, "reg")).tolist(), kind="reg",
+                  gen=dict(rho=0.0, density=0.8, scale_decades=0.0, kind="annihilated"))
+        args = gen_estimator(rng, cls, ds, True)
     if "warm_start" in args:
         args["warm_start"] = False
     a = "F"
@@ -341,6 +373,8 @@ def plan_C10(seed, run, engine, tier="quick"):
     if cls in ("CoxEstimator", "SqrtLasso", "GeneralizedLinearEstimator"):
         pool = ["C", "csc", "list"] if cls != "SqrtLasso" else ["C", "list"]
     b = choice(rng, pool)
+    if (ds.get("gen") or {}).get("kind") == "annihilated" and cls == "GroupLasso":
+        b = choice(rng, ["csc", "csr"])      # the sparse group constants use the power method
     if b == "f32" and "tol" in args and "alpha" in args:
         # a tolerance below single-precision noise cannot be met in float32 (the solver then
         # iterates until its in-place model-fit buffer has drifted, see DESIGN 6.3): keep the
